@@ -8,6 +8,11 @@ mod routing;
 mod digest;
 mod deltas;
 mod wal_codec;
+mod wal_rotator;
+mod ring;
+mod segment;
+mod flush;
+mod executor;
 use std::panic;
 
 pub struct Found {
@@ -48,7 +53,14 @@ fn main() {
         "resp_codec" => resp::search(&pid, &oid, seed),
         "routing" => routing::search(&pid, &oid, seed),
         "digest" => digest::search(&pid, &oid, seed),
-        "wal_codec" => wal_codec::search(&pid, &oid, seed),
+        // wal_files = the multi-file half of the WAL (truncate_before, recover_all_entries, entries_after): same driver, rotator battery first
+        "wal_codec" | "wal_files" => wal_codec::search(&pid, &oid, seed),
+        "wal_rotator" => wal_rotator::search(&pid, &oid, seed),
+        "ring" => ring::search(&pid, &oid, seed),
+        "segment" => segment::search(&pid, &oid, seed),
+        "flush" => flush::search(&pid, &oid, seed),
+        "expiry" => executor::search_expiry(&pid, &oid, seed),
+        "incr_frame" => executor::search_incr(&pid, &oid, seed),
         _ => None,
     };
     match res {
